@@ -511,53 +511,92 @@ func grammarLists() (tags []string, blacks, events []nameType) {
 	return
 }
 
+func elemProductions(pre string, gTags []string, emit func(stream, v string)) {
+	for _, tag := range gTags {
+		for _, term := range []string{">", " ", "/", ""} {
+			emit("black-tag", pre+"<"+tag+term)
+		}
+	}
+	for _, tag := range []string{"SVT", "XSL"} {
+		emit("black-tag", pre+"<"+tag+">")
+	}
+}
+
+func attrEvents(apre string, gEvents []nameType, emit func(stream, v string)) {
+	for _, e := range gEvents {
+		if e.Type != 1 {
+			continue
+		}
+		for _, q := range []string{"=x", "='x'", "=\"x\"", "=`x`", " = x"} {
+			emit("event", apre+"ON"+e.Name+q)
+		}
+	}
+}
+
+func elemSeps(pre string, emit func(stream, v string)) {
+	for _, sp := range []string{" ", "\t", "\n", "\v", "\f", "\r", "/"} {
+		emit("event-separator", pre+"<a"+sp+"ONCLICK=x")
+	}
+}
+
+func attrBlacks(apre string, gBlacks []nameType, emit func(stream, v string)) {
+	for _, a := range gBlacks {
+		switch a.Type {
+		case 2: // URL attribute
+			for _, sch := range []string{"JAVASCRIPT:", "VBSCRIPT:", "DATA:", "VIEW-SOURCE:"} {
+				for _, q := range []string{"", "'", "\""} {
+					emit("url-attribute", apre+a.Name+"="+q+sch+"x"+q)
+				}
+			}
+		case 1, 3: // black / style
+			for _, q := range []string{"", "'", "\""} {
+				emit("black-attribute", apre+a.Name+"="+q+"x"+q)
+			}
+		case 4: // indirect
+			emit("indirect-attribute", apre+a.Name+"=ONCLICK")
+			emit("indirect-attribute", apre+a.Name+"=XMLNS")
+		}
+	}
+	for _, a := range []string{"XMLNS", "XLINK"} {
+		emit("black-attribute", apre+a+"=x")
+	}
+}
+
+func elemMarkup(pre string, emit func(stream, v string)) {
+	for _, m := range []string{"<!DOCTYPE html>", "<!DOCTYPE", "<!ENTITY x>", "<?IMPORT x>", "<?XML x>", "<![IF x]>", "<!--[IF x]>", "<!--[IF x]-->", "<!-- ` -->", "<% ` %>"} {
+		emit("markup", pre+m)
+	}
+}
+
+// the proved core (Spec/GrammarXss.v: five contexts), in its emission order
 func xssCore(emit func(stream, v string)) {
 	gTags, gBlacks, gEvents := grammarLists()
 	for ci := range breakouts {
 		pre := breakouts[ci]
 		apre := attrBreakouts[ci]
-		for _, tag := range gTags {
-			for _, term := range []string{">", " ", "/", ""} {
-				emit("black-tag", pre+"<"+tag+term)
-			}
-		}
-		for _, tag := range []string{"SVT", "XSL"} {
-			emit("black-tag", pre+"<"+tag+">")
-		}
-		for _, e := range gEvents {
-			if e.Type != 1 {
-				continue
-			}
-			for _, q := range []string{"=x", "='x'", "=\"x\"", "=`x`", " = x"} {
-				emit("event", apre+"ON"+e.Name+q)
-			}
-		}
-		for _, sp := range []string{" ", "\t", "\n", "\v", "\f", "\r", "/"} {
-			emit("event-separator", pre+"<a"+sp+"ONCLICK=x")
-		}
-		for _, a := range gBlacks {
-			switch a.Type {
-			case 2: // URL attribute
-				for _, sch := range []string{"JAVASCRIPT:", "VBSCRIPT:", "DATA:", "VIEW-SOURCE:"} {
-					for _, q := range []string{"", "'", "\""} {
-						emit("url-attribute", apre+a.Name+"="+q+sch+"x"+q)
-					}
-				}
-			case 1, 3: // black / style
-				for _, q := range []string{"", "'", "\""} {
-					emit("black-attribute", apre+a.Name+"="+q+"x"+q)
-				}
-			case 4: // indirect
-				emit("indirect-attribute", apre+a.Name+"=ONCLICK")
-				emit("indirect-attribute", apre+a.Name+"=XMLNS")
-			}
-		}
-		for _, a := range []string{"XMLNS", "XLINK"} {
-			emit("black-attribute", apre+a+"=x")
-		}
-		for _, m := range []string{"<!DOCTYPE html>", "<!DOCTYPE", "<!ENTITY x>", "<?IMPORT x>", "<?XML x>", "<![IF x]>", "<!--[IF x]>", "<!--[IF x]-->", "<!-- ` -->", "<% ` %>"} {
-			emit("markup", pre+m)
-		}
+		elemProductions(pre, gTags, emit)
+		attrEvents(apre, gEvents, emit)
+		elemSeps(pre, emit)
+		attrBlacks(apre, gBlacks, emit)
+		elemMarkup(pre, emit)
+	}
+}
+
+// the extended family (Spec/GrammarXss2.v, Properties/C04d.v): 19 further attribute
+// prefixes and 6 further element prefixes
+var extAttrPrefixes = []string{"'", "\"", "`", "x'", "x\"", "x`", "' ", "'/", "x'/", "\"/", "'\t", "x\n", "x/", "<a/", "<a\t", "<a\n", "<a\x00 ", "x' \x00", "'\x00"}
+var extElemPrefixes = []string{"'>", "\">", "`>", "x' >", "x'/>", "x\n>"}
+
+func xssExt(emit func(stream, v string)) {
+	gTags, gBlacks, gEvents := grammarLists()
+	for _, apre := range extAttrPrefixes {
+		attrEvents(apre, gEvents, emit)
+		attrBlacks(apre, gBlacks, emit)
+	}
+	for _, pre := range extElemPrefixes {
+		elemProductions(pre, gTags, emit)
+		elemSeps(pre, emit)
+		elemMarkup(pre, emit)
 	}
 }
 
@@ -565,28 +604,8 @@ func grammarXSSStream(r *rng, tier string) *inputSet {
 	s := newInputSet()
 	var core []string
 	xssCore(func(stream, v string) { s.add("core-"+stream, v); core = append(core, v) })
-	// further break-out prefixes of the attribute position (tested, not part of the proved
-	// core): the closing quote at offset 0, the attribute directly behind the quote, other
-	// separators behind the quote or the tag name
-	gTags, gBlacks, gEvents := grammarLists()
-	_ = gTags
-	for _, p := range []string{"'", "\"", "`", "x'", "x\"", "x`", "' ", "'/", "x'/", "\"/", "'\t", "x\n", "x/", "<a/", "<a\t", "<a\n", "<a\x00 ", "x' \x00", "'\x00"} {
-		for _, e := range gEvents {
-			if e.Type == 1 {
-				s.add("beyond-core-breakouts", p+"ON"+e.Name+"=x")
-			}
-		}
-		for _, a := range gBlacks {
-			switch a.Type {
-			case 2:
-				s.add("beyond-core-breakouts", p+a.Name+"=JAVASCRIPT:x")
-			case 1, 3:
-				s.add("beyond-core-breakouts", p+a.Name+"=x")
-			case 4:
-				s.add("beyond-core-breakouts", p+a.Name+"=ONCLICK")
-			}
-		}
-	}
+	// the extended family of C04d (further break-out prefixes), all of it
+	xssExt(func(stream, v string) { s.add("ext-"+stream, v); core = append(core, v) })
 	n := 20000
 	if tier == "thorough" {
 		n = 500000
